@@ -1162,10 +1162,11 @@ def evaluate__xml_to_json(self: XPathFunction, context: ta.ContextType = None) \
 
             elif child.tag == BOOLEAN_TAG:
                 check_attributes('key', 'escaped-key')
-                if BooleanProxy(''.join(etree_iter_strings(child))):
-                    chunks.append('true')
-                else:
-                    chunks.append('false')
+                try:
+                    value = BooleanProxy(''.join(etree_iter_strings(child)))
+                except ValueError as err:
+                    raise self.error('FOJS0006', err) from None
+                chunks.append('true' if value else 'false')
 
             elif child.tag == NUMBER_TAG:
                 check_attributes('key', 'escaped-key')
